@@ -11,6 +11,7 @@ import (
 	"encoding/base64"
 	"encoding/json"
 	"fmt"
+	"strings"
 
 	"github.com/btcsuite/btcd/btcec"
 	"github.com/btcsuite/btcutil/base58"
@@ -395,12 +396,89 @@ func ExternalKeyValue(id, mark string) (string, string) {
 	return "publicKeyJwk", mark
 }
 
-func svcJSON(id, mark string) string {
-	if len(mark)%2 == 0 {
-		return fmt.Sprintf(`{"id":%q,"type":"SimSvc","serviceEndpoint":"https://sim.example/%s","priority":1}`, id, mark)
+// Service endpoints come in several shapes chosen by (id, marker); the marker is always recoverable (SvcMark):
+//
+//	0 https URL                                   1 https URL with a query string containing '&'
+//	2 authority-less URI (did:..., as DIDComm mediators use)   3 array of URIs (https + urn)
+//	4 object with a uri member and further members
+func svcEndpointJSON(id, mark string) string {
+	switch (idMarkHash(id, mark) / 11) % 5 {
+	case 1:
+		return fmt.Sprintf(`"https://sim.example/%s?tenant=a&mode=b"`, mark)
+	case 2:
+		return fmt.Sprintf(`"did:sim:mediator:%s"`, mark)
+	case 3:
+		return fmt.Sprintf(`["https://sim.example/%s","urn:sim:%s"]`, mark, mark)
+	case 4:
+		return fmt.Sprintf(`{"uri":"https://sim.example/%s","accept":["didcomm/v2","a&b"],"routingKeys":[]}`, mark)
 	}
 
-	return fmt.Sprintf(`{"id":%q,"type":"OtherSvc","serviceEndpoint":"https://sim.example/%s"}`, id, mark)
+	return fmt.Sprintf(`"https://sim.example/%s"`, mark)
+}
+
+func svcJSON(id, mark string) string {
+	if len(mark)%2 == 0 {
+		return fmt.Sprintf(`{"id":%q,"type":"SimSvc","serviceEndpoint":%s,"priority":1}`, id, svcEndpointJSON(id, mark))
+	}
+
+	return fmt.Sprintf(`{"id":%q,"type":"OtherSvc","serviceEndpoint":%s}`, id, svcEndpointJSON(id, mark))
+}
+
+// SvcMark extracts the marker from a service entry (internal or external form), whatever shape its endpoint has.
+// An endpoint that is not one of the generated shapes is rendered verbatim, so that a damaged endpoint shows up as a
+// difference.
+func SvcMark(entry map[string]interface{}) string {
+	fromURI := func(u string) (string, bool) {
+		switch {
+		case strings.HasPrefix(u, "https://sim.example/"):
+			u = strings.TrimPrefix(u, "https://sim.example/")
+			if strings.HasSuffix(u, "?tenant=a&mode=b") {
+				return strings.TrimSuffix(u, "?tenant=a&mode=b"), true
+			}
+
+			if strings.ContainsAny(u, "?&") {
+				return "", false
+			}
+
+			return u, true
+		case strings.HasPrefix(u, "did:sim:mediator:"):
+			return strings.TrimPrefix(u, "did:sim:mediator:"), true
+		}
+
+		return "", false
+	}
+
+	verbatim := func() string {
+		b, _ := json.Marshal(entry["serviceEndpoint"])
+
+		return "?" + string(b)
+	}
+
+	switch ep := entry["serviceEndpoint"].(type) {
+	case string:
+		if m, ok := fromURI(ep); ok {
+			return m
+		}
+	case []interface{}:
+		if len(ep) == 2 {
+			a, _ := ep[0].(string)
+			b, _ := ep[1].(string)
+
+			if m, ok := fromURI(a); ok && b == "urn:sim:"+m {
+				return m
+			}
+		}
+	case map[string]interface{}:
+		u, _ := ep["uri"].(string)
+		acc, _ := json.Marshal(ep["accept"])
+		rk, _ := json.Marshal(ep["routingKeys"])
+
+		if m, ok := fromURI(u); ok && string(acc) == `["didcomm/v2","a\u0026b"]` && string(rk) == "[]" && len(ep) == 3 {
+			return m
+		}
+	}
+
+	return verbatim()
 }
 
 // KeyPurposes returns the purposes keyJSON gives to the key (id, mark) – the relationship sections of the
